@@ -144,6 +144,11 @@ def run(pm, ctx):
         rows = None
         if idx and COLL and [norm_src(e) for e in idx[0].value.elts] == [f"{COLL}.index({a})", f"{COLL}.index({b})"]:
             rows = [norm_src(e) for e in idx[0].targets[0].elts]
+        if rows is None and COLL:
+            # two separate assignments r0 = <recorded>.index(a); r1 = <recorded>.index(b)
+            single = {norm_src(s.value): norm_src(s.targets[0]) for s in body if isinstance(s, ast.Assign) and len(s.targets) == 1 and isinstance(s.targets[0], ast.Name)}
+            if f"{COLL}.index({a})" in single and f"{COLL}.index({b})" in single:
+                rows = [single[f"{COLL}.index({a})"], single[f"{COLL}.index({b})"]]
         ups = [s for s in body if isinstance(s, ast.AugAssign)]
         if rows is None:
             ctx.unrecognised("C14-b", site, "rows are not located with <recorded indices>.index(sample)")
